@@ -47,7 +47,33 @@ IFACES = ["Audio", "Metadata", "PushUpdater", "RemoteControl"]
 
 
 class Injected(Exception):
-    """The failure a fake collaborator raises."""
+    """The failure a fake collaborator raises (default class)."""
+
+
+# the exception CLASS of an injected failure: a kind "fail:<name>" raises that class
+EXC_CLASSES = ["ProtocolError", "AuthenticationError", "RuntimeError", "OSError", "ConnectionRefusedError",
+               "ConnectionResetError", "TimeoutError", "asyncio.TimeoutError", "KeyError", "ValueError"]
+
+
+def make_exc(name, msg):
+    from pyatv import exceptions
+
+    if not name or name == "Injected":
+        ex = Injected(msg)
+    elif name == "asyncio.TimeoutError":
+        ex = asyncio.TimeoutError(msg)
+    elif hasattr(exceptions, name):
+        ex = getattr(exceptions, name)(msg)
+    else:
+        ex = {"RuntimeError": RuntimeError, "OSError": OSError, "ConnectionRefusedError": ConnectionRefusedError,
+              "ConnectionResetError": ConnectionResetError, "TimeoutError": TimeoutError, "KeyError": KeyError,
+              "ValueError": ValueError}[name](msg)
+    ex._verif_injected = True
+    return ex
+
+
+def base_kind(kind):
+    return kind.split(":")[0] if isinstance(kind, str) else kind
 
 
 # ------------------------------------------------------------------------------------
@@ -60,6 +86,10 @@ class Plan:
     def __init__(self, fault_at=None, kind="fail", park_at=None, fault_name=None):
         self.fault_at = fault_at
         self.fault_name = fault_name      # alternative to an index: the call with this name
+        self.exc = None
+        if isinstance(kind, str) and ":" in kind:
+            kind, self.exc = kind.split(":", 1)
+        self.struck = False
         self.kind = kind
         self.park_at = park_at
         self.n = 0
@@ -77,7 +107,9 @@ class Plan:
             await self.resume.wait()
         if self.fault_at == i or (self.fault_name is not None and self.fault_name == name):
             if self.kind == "fail":
-                raise Injected(f"injected failure at point {i} ({name})")
+                self.struck = True
+                raise make_exc(self.exc, f"injected failure at point {i} ({name})")
+            self.struck = True
             (self.op_task or asyncio.current_task()).cancel()
         await asyncio.sleep(0)
 
@@ -87,7 +119,8 @@ class Plan:
         self.n += 1
         self.names.append(name)
         if self.fault_at == i or (self.fault_name is not None and self.fault_name == name):
-            raise Injected(f"injected failure at point {i} ({name})")
+            self.struck = True
+            raise make_exc(self.exc, f"injected failure at point {i} ({name})")
 
 
 class World:
@@ -148,15 +181,36 @@ class FakeConnection(Obj):
 
     local_ip = "127.0.0.1"
     remote_ip = "127.0.0.1"
+    world = None
+    gets = 0
 
     def close(self):
         self.open = False
+
+    # requests the AirPlay player / protocol objects send directly on the connection
+    async def post(self, path, headers=None, body=None, allow_error=False):
+        from pyatv.support.http import HttpResponse
+
+        await self.world.plan.point("conn.post")
+        return HttpResponse("HTTP", "1.1", 200, "OK", {}, b"")
+
+    async def get(self, path, headers=None, allow_error=False):
+        import plistlib
+
+        from pyatv.support.http import HttpResponse
+
+        await self.world.plan.point("conn.get")
+        self.gets += 1      # first poll: playing (has a duration); second poll: playback ended
+        body = plistlib.dumps({"duration": 1.0}, fmt=plistlib.FMT_BINARY) if self.gets == 1 else b""
+        return HttpResponse("HTTP", "1.1", 200, "OK", {}, body)
 
 
 def make_http_connect(world, kind):
     async def http_connect(address, port):
         await world.plan.point(f"http_connect:{kind}")
-        return world.add(kind, FakeConnection())
+        conn = world.add(kind, FakeConnection())
+        conn.world = world
+        return conn
 
     return http_connect
 
@@ -165,7 +219,7 @@ def injected_in(ex):
     """Is the injected failure the (possibly wrapped) cause of this exception?"""
     seen = 0
     while ex is not None and seen < 10:
-        if isinstance(ex, Injected):
+        if getattr(ex, "_verif_injected", False):
             return True
         ex = ex.__cause__ or ex.__context__
         seen += 1
@@ -226,11 +280,15 @@ def make_stream_client(world, info):
             self.connection = connection
 
         async def _req(self, name):
-            plan = world.plan
-            if plan.op_task is not None and asyncio.current_task() is not plan.op_task:
-                await asyncio.sleep(0)
+            co = getattr(asyncio.current_task().get_coro(), "__qualname__", "")
+            if "_feedback_task_loop" in co or "_send_keep_alive" in co:
+                await asyncio.sleep(0)      # a background task of the protocol object asks
                 return
-            await plan.point("rtsp." + name)
+            await world.plan.point("rtsp." + name)
+
+        async def exchange(self, method, uri=None, **kwargs):
+            await self._req("exchange")
+            return response()
 
         async def info(self):
             await self._req("info")
@@ -291,6 +349,7 @@ def make_stream_client(world, info):
         async def _stream_data(self, source, transport):
             await world.plan.point("client.stream_data")
 
+    world.FakeRtsp = FakeRtsp
     return HalfRealStreamClient
 
 
@@ -363,15 +422,34 @@ def make_web_server(world):
     return FakeWebServer
 
 
-def make_player(world):
-    class FakePlayer:
-        def __init__(self, rtsp, stream_protocol):
+def make_play_loop_patch(world, patches):
+    """The real AirPlayPlayer opens its timing server with the running loop's
+    create_datagram_endpoint: ledger-recording fake (`ptiming`)."""
+    loop = asyncio.get_running_loop()
+
+    class PlayTimingTransport(Obj):
+        def close(self):
+            self.open = False
+
+        def get_extra_info(self, key):
+            class Sock:
+                @staticmethod
+                def getsockname():
+                    return ("127.0.0.1", 4005)
+            return Sock()
+
+        def sendto(self, data, addr=None):
             pass
 
-        async def play_url(self, url, position=0):
-            await world.plan.point("player.play_url")
+    async def create_datagram_endpoint(factory, **kwargs):
+        proto = factory()
+        await world.plan.point("udp_endpoint:ptiming")
+        transport = world.add("ptiming", PlayTimingTransport())
+        proto.connection_made(transport)
+        return transport, proto
 
-    return FakePlayer
+    loop.create_datagram_endpoint = create_datagram_endpoint
+    patches.saved.append((loop, "create_datagram_endpoint", None))
 
 
 class FakeSessionManager(Obj):
@@ -399,6 +477,9 @@ class Patches:
 
     def undo(self):
         for obj, name, value in reversed(self.saved):
+            if value is None and name == "create_datagram_endpoint":
+                obj.__dict__.pop(name, None)
+                continue
             setattr(obj, name, value)
         self.saved = []
 
@@ -416,7 +497,7 @@ def protocol_order():
 CONNECT_STEPS = ["connect", "register", "features", "device_info"]
 
 
-async def run_connect(subset, fault=None, delays=None, closes=None):
+async def run_connect(subset, fault=None, delays=None, closes=None, lost=None):
     """pyatv.connect with the protocols in `subset` (indices into PROTOCOLS order).  Per
     protocol the facade calls four things the protocol supplies: `await connect()` (which
     takes `delays[pos]` seconds of virtual time and then establishes a connection plus a
@@ -425,6 +506,8 @@ async def run_connect(subset, fault=None, delays=None, closes=None):
     the pos-th protocol (set-up order) fail / be cancelled.  After connect() has returned
     or raised, the ledger is observed at once (`ledger_at_return`) and again after the loop
     has been drained (virtual time past every delay).  `closes[pos]` scripts the protocol's
+    `lost = pos`: right after it has connected, that protocol reports (as the real connections
+    do) `device_listener.listener.connection_lost(...)` while connect() is still under way.
     close(): "sync" (closed inside close()), "late" (close() returns a task that needs virtual
     time before the connection is closed), "raise" (the close task closes and then raises)."""
     import pyatv
@@ -470,6 +553,9 @@ async def run_connect(subset, fault=None, delays=None, closes=None):
             conn = {}
 
             async def _connect():
+                if isinstance(lost, list) and idx in subset and subset.index(idx) == lost[0] + 1:
+                    # the previous protocol's connection drops while this one is connecting
+                    core.device_listener.listener.connection_lost(ConnectionResetError("lost during connect"))
                 if delay:
                     await asyncio.sleep(delay)
                 await plan.point(f"connect:{idx}")
@@ -482,6 +568,8 @@ async def run_connect(subset, fault=None, delays=None, closes=None):
                 t.task = asyncio.ensure_future(background())
                 t.task.add_done_callback(lambda _f: setattr(t, "open", False))
                 conn["t"] = world.add(f"task{idx}", t)
+                if isinstance(lost, int) and idx in subset and subset.index(idx) == lost:
+                    core.device_listener.listener.connection_lost(ConnectionResetError("lost during connect"))
                 return True
 
             def _close():
@@ -529,12 +617,10 @@ async def run_connect(subset, fault=None, delays=None, closes=None):
         try:
             atv = await plan.op_task
             outcome = "ok"
-        except Injected:
-            outcome = "fail"
         except asyncio.CancelledError:
             outcome = "cancel"
         except Exception as ex:  # an observation, never a crash
-            outcome = "err:" + type(ex).__name__
+            outcome = "fail" if injected_in(ex) else "err:" + type(ex).__name__
         at_return = world.ledger()
         pending_at_return = len([t for t in asyncio.all_tasks() - before
                                  if not t.done() and t is not asyncio.current_task()])
@@ -612,7 +698,8 @@ class Rig:
         p.set(raop, "get_protocol_version", get_protocol_version)
         p.set(airplay, "http_connect", make_http_connect(w, "playConn"))
         p.set(airplay, "StaticFileWebServer", make_web_server(w))
-        p.set(airplay, "AirPlayPlayer", make_player(w))
+        p.set(airplay, "RtspSession", lambda connection: w.FakeRtsp(connection))   # AirPlayPlayer + protocol objects are real
+        make_play_loop_patch(w, p)
         p.set(airplay.net, "get_local_address_reaching", lambda addr: "127.0.0.1")
 
         config = conf.AppleTV("127.0.0.1", "verif")
@@ -623,7 +710,10 @@ class Rig:
         if self.raop_props is not None:
             props = dict(self.raop_props)
         raop_service = conf.ManualService("raopid", Protocol.RAOP, 7000, props)
-        airplay_service = conf.ManualService("airplayid", Protocol.AirPlay, 7000, {})
+        aflag = int(AirPlayFlags.SupportsUnifiedMediaControl | AirPlayFlags.SupportsAirPlayVideoV2)
+        aprops = {"features": "0x%08X,0x%X" % (aflag & 0xFFFFFFFF, aflag >> 32)} if self.v2 else \
+            {"features": "0x%08X,0x0" % int(AirPlayFlags.SupportsAirPlayVideoV1)}
+        airplay_service = conf.ManualService("airplayid", Protocol.AirPlay, 7000, aprops)
         config.add_service(raop_service)
         config.add_service(airplay_service)
         settings = Settings()
@@ -700,7 +790,7 @@ def op_name(op, vol_known=True):
     vol_known, v2 = cfg(vol_known)
     if op[0] == "stream":
         return "stream:%d%d%d" % (1 if vol_known else 0, 1 if op[1] else 0, 1 if v2 else 0)
-    return "play:%d" % (1 if op[1] else 0)
+    return "play:%d%d" % (1 if op[1] else 0, 1 if v2 else 0)
 
 
 def stray(before):
@@ -784,7 +874,9 @@ async def scenario_overlap(op1, op2, vol_known, park_at, fault2=None, kind2="fai
 
 
 def run_async(coro):
-    loop = asyncio.new_event_loop()
+    from harness.core.vloop import VirtualLoop
+
+    loop = VirtualLoop()      # retry / poll sleeps of the real code take virtual time
     try:
         asyncio.set_event_loop(loop)
         return loop.run_until_complete(coro)
@@ -807,7 +899,7 @@ OPS = [("stream", True), ("stream", False), ("play", True), ("play", False)]
 
 
 def fault_str(fault):
-    return "-" if fault is None else f"{fault[0]}:{fault[1]}"
+    return "-" if fault is None else f"{fault[0]}:{base_kind(fault[1])}"
 
 
 def csv(xs):
@@ -816,14 +908,20 @@ def csv(xs):
 
 STREAM_CFGS = [[True, False], [False, False], [True, True], [False, True]]
 PLAY_CFG = [True, False]
+PLAY_CFGS = [[True, False], [True, True]]
 
 
 def variants(cfgs=None):
     """(op, cfg): the script variants (the receiver configuration only matters for stream_file)."""
     out = []
     for op in OPS:
-        for c in ((cfgs or STREAM_CFGS) if op[0] == "stream" else (PLAY_CFG,)):
-            out.append((op, c))
+        if op[0] == "stream":
+            for c in (cfgs or STREAM_CFGS):
+                out.append((op, c))
+        else:
+            for c in PLAY_CFGS:
+                if cfgs is None or any(x[1] == c[1] for x in cfgs):
+                    out.append((op, c))
     return out
 
 
@@ -834,7 +932,7 @@ def evaluate(case):
         from harness.core import vloop
 
         fault = tuple(case["fault"]) if case["fault"] else None
-        obs = vloop.run(run_connect, case["subset"], fault, case.get("delays"), case.get("closes"))
+        obs = vloop.run(run_connect, case["subset"], fault, case.get("delays"), case.get("closes"), case.get("lost"))
         mfault = (4 * fault[0] + fault[1], fault[2]) if fault else None
         return obs, [f"run connect:{csv([str(i) for i in case['subset']])} - {fault_str(mfault)}"]
     if fam == "single":
@@ -921,7 +1019,7 @@ def judge(case, obs):
     fam = case["family"]
     bad = []
     if fam == "connect":
-        injected_cancel = bool(case["fault"]) and case["fault"][2] == "cancel"   # outside the property
+        injected_cancel = bool(case["fault"]) and base_kind(case["fault"][2]) == "cancel"   # outside the property
         if obs["outcome"] != "ok" and not injected_cancel:            # connect() raised
             step = CONNECT_STEPS[case["fault"][1]] if case["fault"] else "-"
             if obs["ledger_at_return"] or obs["pending_at_return"]:
@@ -988,7 +1086,12 @@ def compare(ctx, case, obs, answers):
     """Correspondence: model answers vs. the real code."""
     fam = case["family"]
 
-    def cmp_run(ans, o, where):
+    def cmp_run(ans, o, where, kind=None):
+        if kind and ":" in kind and o["outcome"] != "fail":
+            # a failure of this CLASS is handled by the code itself (retry, "connection lost
+            # means playback ended", ...): outside the model, only the oracle applies
+            ctx.note("class-handled:" + kind.split(":")[1])
+            return
         m = parse_run(ans)
         impl = {"outcome": o["outcome"], "ledger": o["ledger"], "points": o["points"]}
         if case.get("raop_props") is not None and impl["outcome"].startswith("err:"):
@@ -1000,8 +1103,11 @@ def compare(ctx, case, obs, answers):
         if m != impl:
             ctx.disagree(case, impl, ans, where=where)
 
+    if fam == "connect" and case.get("lost") is not None:
+        ctx.note("connect:lost-during-connect")     # early close by the device listener: oracle only
+        return
     if fam in ("connect", "single"):
-        cmp_run(answers[0], obs, fam)
+        cmp_run(answers[0], obs, fam, (case["fault"] or [None])[-1] if case["fault"] else None)
     elif fam == "overlap":
         ctx.validated()
         if not obs["reached"]:
@@ -1010,14 +1116,15 @@ def compare(ctx, case, obs, answers):
             return
         if answers[0] != csv(obs["held"]):
             ctx.disagree(case, csv(obs["held"]), answers[0], where="overlap: held while parked")
-        cmp_run(answers[1], {"outcome": obs["outcome2"], "ledger": obs["ledger2"], "points": obs["points2"]}, "overlap: second call")
+        cmp_run(answers[1], {"outcome": obs["outcome2"], "ledger": obs["ledger2"], "points": obs["points2"]}, "overlap: second call",
+                (case["fault2"] or [None])[-1] if case["fault2"] else None)
         m1 = parse_run(answers[2])
         ctx.validated()
         if m1 is None or m1["outcome"] != obs["outcome1"] or m1["ledger"] != obs["ledger1"]:
             ctx.disagree(case, [obs["outcome1"], obs["ledger1"]], answers[2], where="overlap: first call resumed")
     elif fam == "seq":
-        for ans, o in zip(answers, obs["steps"]):
-            cmp_run(ans, o, "seq step")
+        for ans, o, st in zip(answers, obs["steps"], case["steps"]):
+            cmp_run(ans, o, "seq step", st["fault"][-1] if st["fault"] else None)
 
 
 def dry_points(op, vol):
@@ -1025,12 +1132,17 @@ def dry_points(op, vol):
     return run_async(scenario_single(op, vol, None, "fail"))["names"]
 
 
-def faults_for(names, limit=None):
+def faults_for(names, limit=None, classes=0, salt=0):
+    """[point, kind] for every point: a failure (default class), a cancellation (awaits only) and
+    `classes` more failures of other exception classes (rotating through EXC_CLASSES; all if < 0)."""
     out = []
     for k, name in enumerate(names[:limit] if limit else names):
         out.append([k, "fail"])
         if not name.startswith("sync:"):
             out.append([k, "cancel"])
+        n = len(EXC_CLASSES) if classes < 0 else classes
+        for j in range(n):
+            out.append([k, "fail:" + EXC_CLASSES[(k * max(n, 1) + j + salt) % len(EXC_CLASSES)]])
     return out
 
 
@@ -1058,6 +1170,22 @@ def gen_cases(ctx):
                     cases.append({"family": "connect", "subset": subset, "fault": [k, step, "fail"], "delays": delays})
             if ctx.thorough or k == m - 1:
                 cases.append({"family": "connect", "subset": subset, "fault": [k, 0, "cancel"], "delays": patterns[1]})
+            # the exception CLASS of the failure (OSError family, timeouts, pyatv errors, ...)
+            for step in range(len(CONNECT_STEPS)):
+                chosen = EXC_CLASSES if (ctx.thorough or (step == 0 and m <= 2)) else \
+                    [EXC_CLASSES[(mask + 3 * k + step + j) % len(EXC_CLASSES)] for j in range(2)]
+                for cls in chosen:
+                    cases.append({"family": "connect", "subset": subset, "fault": [k, step, "fail:" + cls],
+                                  "delays": [0] * m})
+            # an already connected protocol loses its connection while connect() is still under way
+            if k >= 1:
+                for lost in range(k if ctx.thorough else 1):
+                    for step in (0, 3):
+                        cases.append({"family": "connect", "subset": subset, "fault": [k, step, "fail"],
+                                      "delays": [0] * m, "lost": lost})
+                        if lost + 1 < k:
+                            cases.append({"family": "connect", "subset": subset, "fault": [k, step, "fail"],
+                                          "delays": [0] * m, "lost": [lost]})
             # close() of the protocols already connected returns tasks that raise / finish late
             if k >= 1:
                 modes = ["sync", "late", "raise"]
@@ -1072,12 +1200,14 @@ def gen_cases(ctx):
     #    below the stream objects: RTSP requests, pair-verify, event channel, UDP endpoints),
     #    for AirPlay 1 and AirPlay 2 receivers, alone and while another protocol holds a takeover
     names = {}
-    key = lambda op, c: (tuple(op), tuple(c if op[0] == "stream" else PLAY_CFG))
+    key = lambda op, c: (tuple(op), tuple(c if op[0] == "stream" else [True, c[1]]))
     foreigns = [[], [3], [0], [0, 1, 2, 3]]
     for op, c in variants():
         names[key(op, c)] = nm = dry_points(op, c)
         for foreign in foreigns:
-            faults = [None] + faults_for(nm, 2 if (foreign and not ctx.thorough) else None)
+            salt = sum(map(ord, op[0])) + 2 * op[1] + 4 * c[0] + 8 * c[1]
+            faults = [None] + faults_for(nm, 2 if (foreign and not ctx.thorough) else None,
+                                         classes=(-1 if ctx.thorough else 3) if not foreign else 0, salt=salt)
             for f in faults:
                 cases.append({"family": "single", "op": list(op), "vol": c, "fault": f, "foreign": foreign})
     #    receivers whose TXT record makes helper parsing raise between two collaborator calls
@@ -1113,6 +1243,8 @@ def gen_cases(ctx):
             if r >= 0.2:
                 k = rng.randint(0, len(nm) - 1)
                 fault = [k, "fail" if (rng.random() < 0.5 or nm[k].startswith("sync:")) else "cancel"]
+                if fault[1] == "fail" and rng.random() < 0.5:
+                    fault[1] = "fail:" + EXC_CLASSES[rng.randint(0, len(EXC_CLASSES) - 1)]
             fr = rng.random()
             foreign = None if fr < 0.5 else ([] if fr < 0.7 else sorted(set(rng.randint(0, 3) for _ in range(rng.randint(1, 3)))))
             steps.append({"op": list(op), "fault": fault, "foreign": foreign})
